@@ -74,6 +74,7 @@ const (
 type c07flowKey struct {
 	kind c07subjKind
 	v    ssa.Value
+	free bool // ignore what is known about v from its definition/callers (predicate summaries)
 }
 
 type c07atKey struct {
@@ -84,24 +85,28 @@ type c07atKey struct {
 
 // c07Engine holds memo tables.
 type c07Engine struct {
-	p        *Prog
-	sc       *c07Scope
-	fv       *c07FV
-	callers  map[*ssa.Function][]c07CallSite // module-wide call sites: static, resolved dynamic, module-interface invokes
-	escaped  map[*ssa.Function]bool          // the function's value is taken somewhere
-	tblMemo  map[ssa.Value]c07Table
-	flows    map[c07flowKey]map[*ssa.BasicBlock]c07B
-	busy     map[c07atKey]bool
-	intrBusy map[c07flowKey]bool
-	glob     map[*ssa.Global]c07B
-	retMemo  map[string]c07B
-	depth    int
+	p         *Prog
+	sc        *c07Scope
+	fv        *c07FV
+	callers   map[*ssa.Function][]c07CallSite // module-wide call sites: static, resolved dynamic, module-interface invokes
+	escaped   map[*ssa.Function]bool          // the function's value is taken somewhere
+	tblMemo   map[ssa.Value]c07Table
+	fieldImm  map[FieldID]bool
+	remLinear bool
+	predDepth int
+	predMemo  map[string]c07B
+	flows     map[c07flowKey]map[*ssa.BasicBlock]c07B
+	busy      map[c07atKey]bool
+	intrBusy  map[c07flowKey]bool
+	glob      map[*ssa.Global]c07B
+	retMemo   map[string]c07B
+	depth     int
 }
 
 func newC07Engine(p *Prog, sc *c07Scope, fv *c07FV) *c07Engine {
 	e := &c07Engine{p: p, sc: sc, fv: fv, callers: map[*ssa.Function][]c07CallSite{}, escaped: map[*ssa.Function]bool{},
 		flows: map[c07flowKey]map[*ssa.BasicBlock]c07B{}, busy: map[c07atKey]bool{}, intrBusy: map[c07flowKey]bool{},
-		glob: map[*ssa.Global]c07B{}, retMemo: map[string]c07B{}, tblMemo: map[ssa.Value]c07Table{}}
+		glob: map[*ssa.Global]c07B{}, retMemo: map[string]c07B{}, tblMemo: map[ssa.Value]c07Table{}, fieldImm: map[FieldID]bool{}, predMemo: map[string]c07B{}}
 	for _, fn := range p.Funcs {
 		fn = origin(fn)
 		e.callers[fn] = fv.Sites(fn)
@@ -242,14 +247,8 @@ func (e *c07Engine) isSubject(k c07flowKey, v ssa.Value) bool {
 			return c07SameLen(a) == c07SameLen(k.v)
 		}
 	case c07Int:
-		if v == k.v {
+		if e.sameInt(v, k.v, 0) {
 			return true
-		}
-		// two separate len(x) calls of the same x denote the same number
-		if a, ok := c07LenArg(v); ok {
-			if b, ok := c07LenArg(k.v); ok {
-				return c07SameLen(a) == c07SameLen(b)
-			}
 		}
 	}
 	return false
@@ -290,6 +289,9 @@ func (e *c07Engine) condFact(k c07flowKey, cond ssa.Value, branch bool, at *ssa.
 				}
 			}
 		}
+	}
+	if f, ok := e.summaryFact(k, cond, branch, at); ok {
+		return f, true
 	}
 	if cmp, ok := decodeCond(cond, branch); ok {
 		x, y, op := cmp.X, cmp.Y, cmp.Op
@@ -346,10 +348,10 @@ func (e *c07Engine) condFact(k c07flowKey, cond ssa.Value, branch bool, at *ssa.
 			if bo, ok := k.v.(*ssa.BinOp); ok && bo.Op == token.SUB {
 				a, b := bo.X, bo.Y
 				xx, yy, o := cmp.X, cmp.Y, cmp.Op
-				if c07sameInt(xx, b) && c07sameInt(yy, a) {
+				if e.sameInt(xx, b, 0) && e.sameInt(yy, a, 0) {
 					xx, yy, o = yy, xx, c07swap(o)
 				}
-				if c07sameInt(xx, a) && c07sameInt(yy, b) {
+				if e.sameInt(xx, a, 0) && e.sameInt(yy, b, 0) {
 					switch o {
 					case token.GTR:
 						return c07B{Lo: 1, Exact: true, Why: "guard a>b"}, true
@@ -381,6 +383,388 @@ func (e *c07Engine) condFact(k c07flowKey, cond ssa.Value, branch bool, at *ssa.
 		}
 	}
 	return c07B{}, false
+}
+
+// summaryFact: facts that come out of module helpers.
+//
+//	(P1) the condition is the boolean result of a module function that
+//	     receives the subject (x, or len(x), or the int itself): the bound that
+//	     holds at every return of the helper that can produce this truth value
+//	     (validLen(len(x)), longEnough(x)).
+//	(P2) the subject is one result of a module call and the condition is the
+//	     bool flag (or the error) of the SAME call: n, ok := bodyLen(); the
+//	     bound of result n over the returns that can produce this flag.
+func (e *c07Engine) summaryFact(k c07flowKey, cond ssa.Value, branch bool, at *ssa.BasicBlock) (c07B, bool) {
+	for {
+		if u, ok := cond.(*ssa.UnOp); ok && u.Op == token.NOT {
+			cond, branch = u.X, !branch
+			continue
+		}
+		break
+	}
+	if e.depth > 30 {
+		return c07B{}, false
+	}
+	// (P2)
+	if ex, ok := k.v.(*ssa.Extract); ok {
+		flag := c07LoadedFrom(cond)
+		wantNil := false
+		if cmp, ok := decodeCond(cond, branch); ok && (cmp.Op == token.EQL || cmp.Op == token.NEQ) {
+			x, y := cmp.X, cmp.Y
+			if isNilConst(x) {
+				x, y = y, x
+			}
+			if isNilConst(y) {
+				if cmp.Op == token.NEQ {
+					return c07B{}, false
+				}
+				flag, wantNil = c07LoadedFrom(x), true
+			}
+		}
+		if ex2, ok := flag.(*ssa.Extract); ok && ex2.Tuple == ex.Tuple && ex2.Index != ex.Index {
+			if call, ok := ex.Tuple.(*ssa.Call); ok {
+				if fn := e.calleeOf(call); fn != nil && e.p.InModule(fn) && fn.Blocks != nil {
+					b, ok := e.tupleSummary(fn, k.kind, ex.Index, ex2.Index, wantNil, branch)
+					if ok {
+						return b, true
+					}
+				}
+			}
+		}
+		return c07B{}, false
+	}
+	// (P1)
+	call, ri, ok := c07FlagCall(cond)
+	if !ok {
+		return c07B{}, false
+	}
+	fn := e.calleeOf(call)
+	if fn == nil || !e.p.InModule(fn) || fn.Blocks == nil || ri >= fn.Signature.Results().Len() {
+		return c07B{}, false
+	}
+	if bt, ok := fn.Signature.Results().At(ri).Type().Underlying().(*types.Basic); !ok || bt.Kind() != types.Bool {
+		return c07B{}, false
+	}
+	shift := 0
+	if call.Call.IsInvoke() {
+		shift = 1
+	} else if ts := e.fv.callTargets(call); len(ts) == 1 {
+		shift = ts[0].Shift
+	}
+	best := c07B{}
+	found := false
+	for i, a := range call.Call.Args {
+		pi := i + shift
+		if pi >= len(fn.Params) {
+			continue
+		}
+		par := fn.Params[pi]
+		var pk c07flowKey
+		switch {
+		case k.kind == c07Len && c07IsLenType(a.Type()) && c07SameLen(a) == c07SameLen(k.v):
+			pk = c07flowKey{kind: c07Len, v: par, free: true}
+		case k.kind == c07Len && c07isInteger(a.Type()):
+			if x, ok := c07LenArg(a); !ok || c07SameLen(x) != c07SameLen(k.v) {
+				continue
+			}
+			pk = c07flowKey{kind: c07Int, v: par, free: true}
+		case k.kind == c07Int && c07isInteger(a.Type()) && e.sameInt(a, k.v, 0):
+			pk = c07flowKey{kind: c07Int, v: par, free: true}
+		default:
+			continue
+		}
+		b, ok := e.predSummary(fn, pk, branch, ri)
+		if ok && (!found || b.Lo > best.Lo) {
+			best, found = b, true
+		}
+	}
+	if !found {
+		return c07B{}, false
+	}
+	best.Why = "guard " + FuncName(e.p, fn)
+	return best, true
+}
+
+// c07FlagCall: v is the boolean result of a call: the call itself, or the
+// bool component #i of its tuple (through a local cell written just before).
+func c07FlagCall(v ssa.Value) (*ssa.Call, int, bool) {
+	v = c07LoadedFrom(v)
+	switch x := v.(type) {
+	case *ssa.Call:
+		if _, isB := x.Call.Value.(*ssa.Builtin); isB {
+			return nil, 0, false
+		}
+		if x.Call.Signature().Results().Len() == 1 {
+			return x, 0, true
+		}
+	case *ssa.Extract:
+		if c, ok := x.Tuple.(*ssa.Call); ok {
+			return c, x.Index, true
+		}
+	}
+	return nil, 0, false
+}
+
+// predTransparent: cond is (the negation of) a call of a boolean module
+// function that receives one of the subjects, and every condition inside that
+// function that depends on the corresponding parameter is one the engine
+// interprets.
+func (e *c07Engine) predTransparent(cond ssa.Value, subjects []c07flowKey) bool {
+	for {
+		if u, ok := cond.(*ssa.UnOp); ok && u.Op == token.NOT {
+			cond = u.X
+			continue
+		}
+		break
+	}
+	call, ri, ok := c07FlagCall(cond)
+	if !ok || e.predDepth > 2 {
+		return false
+	}
+	fn := e.calleeOf(call)
+	if fn == nil || !e.p.InModule(fn) || fn.Blocks == nil || ri >= fn.Signature.Results().Len() {
+		return false
+	}
+	if bt, ok := fn.Signature.Results().At(ri).Type().Underlying().(*types.Basic); !ok || bt.Kind() != types.Bool {
+		return false
+	}
+	shift := 0
+	if call.Call.IsInvoke() {
+		shift = 1
+	} else if ts := e.fv.callTargets(call); len(ts) == 1 {
+		shift = ts[0].Shift
+	}
+	mapped := false
+	e.predDepth++
+	defer func() { e.predDepth-- }()
+	for i, a := range call.Call.Args {
+		pi := i + shift
+		if pi >= len(fn.Params) {
+			continue
+		}
+		par := fn.Params[pi]
+		for _, k := range subjects {
+			var pk c07flowKey
+			switch {
+			case k.kind == c07Len && c07IsLenType(a.Type()) && c07SameLen(a) == c07SameLen(k.v):
+				pk = c07flowKey{kind: c07Len, v: par, free: true}
+			case c07isInteger(a.Type()) && e.isSubject(k, a):
+				pk = c07flowKey{kind: c07Int, v: par, free: true}
+			default:
+				continue
+			}
+			mapped = true
+			for _, b := range fn.Blocks {
+				ret, isRet := b.Instrs[len(b.Instrs)-1].(*ssa.Return)
+				if !isRet {
+					continue
+				}
+				if len(e.opaqueGuards(fn, b, par, []c07flowKey{pk})) > 0 {
+					return false
+				}
+				if ri >= len(ret.Results) || !e.readableFlag(ret.Results[ri], par, pk, 0) {
+					return false
+				}
+			}
+		}
+	}
+	return mapped
+}
+
+// readableFlag: the returned boolean is built only from constants and from
+// conditions on the parameter that the engine interprets.
+func (e *c07Engine) readableFlag(v ssa.Value, par *ssa.Parameter, pk c07flowKey, depth int) bool {
+	if depth > 4 {
+		return false
+	}
+	switch x := v.(type) {
+	case *ssa.Const:
+		return true
+	case *ssa.UnOp:
+		if x.Op == token.NOT {
+			return e.readableFlag(x.X, par, pk, depth+1)
+		}
+	case *ssa.Phi:
+		for _, ed := range x.Edges {
+			if !e.readableFlag(ed, par, pk, depth+1) {
+				return false
+			}
+		}
+		return true
+	case *ssa.Call:
+		if !c07Depends(x, par, 5) {
+			return true
+		}
+		return e.predTransparent(x, []c07flowKey{pk})
+	case *ssa.BinOp:
+		if !c07Depends(x, par, 5) {
+			return true
+		}
+		if cmp, ok := decodeCond(x, true); ok {
+			for _, side := range []ssa.Value{cmp.X, cmp.Y} {
+				if e.isSubject(pk, side) {
+					return true
+				}
+				if bo, ok := side.(*ssa.BinOp); ok && bo.Op == token.REM && e.isSubject(pk, bo.X) {
+					return true
+				}
+			}
+			if pk.kind == c07Len {
+				if c07SameLen(cmp.X) == ssa.Value(par) || c07SameLen(cmp.Y) == ssa.Value(par) {
+					return true // string comparison
+				}
+			}
+		}
+		return false
+	}
+	return !c07Depends(v, par, 5)
+}
+
+// flagFact: the bound of subject k at block blk under the assumption that the
+// returned flag value has truth value want; possible=false when it cannot.
+func (e *c07Engine) flagFact(k c07flowKey, flag ssa.Value, want bool, blk *ssa.BasicBlock, depth int) (c07B, bool) {
+	for {
+		if u, ok := flag.(*ssa.UnOp); ok && u.Op == token.NOT {
+			flag, want = u.X, !want
+			continue
+		}
+		break
+	}
+	if c, ok := flag.(*ssa.Const); ok && c.Value != nil && c.Value.Kind() == constant.Bool {
+		if constant.BoolVal(c.Value) != want {
+			return c07B{}, false
+		}
+		return e.at(k, blk), true
+	}
+	if phi, ok := flag.(*ssa.Phi); ok && depth < 3 {
+		acc := c07B{Lo: c07PosInf, Exact: true}
+		any := false
+		for i, ed := range phi.Edges {
+			pred := phi.Block().Preds[i]
+			b, ok := e.flagFact(k, ed, want, pred, depth+1)
+			if !ok {
+				continue
+			}
+			if f, ok := e.edgeFact(k, pred, phi.Block()); ok && f.Lo > b.Lo {
+				b = f
+			}
+			any = true
+			acc = c07min(acc, b)
+		}
+		if !any {
+			return c07B{}, false
+		}
+		return acc, true
+	}
+	b := e.at(k, blk)
+	if f, ok := e.condFact(k, flag, want, blk); ok && f.Lo > b.Lo {
+		b = f
+	}
+	// subject != c with the bound sitting exactly on c
+	if cmp, ok := decodeCond(flag, want); ok && cmp.Op == token.NEQ {
+		x, y := cmp.X, cmp.Y
+		if !e.isSubject(k, x) {
+			x, y = y, x
+		}
+		if c, isC := c07ConstInt(y); isC && e.isSubject(k, x) && c == b.Lo {
+			b.Lo++
+			b.Why = "guard !="
+		}
+		if k.kind == c07Len {
+			if s, isS := c07ConstString(c07SameLen(y)); isS && s == "" && c07SameLen(x) == c07SameLen(k.v) && b.Lo == 0 {
+				b.Lo = 1
+			}
+		}
+	}
+	return b, true
+}
+
+// predSummary: the bound on parameter subject pk that holds whenever the
+// boolean helper fn returns want.
+func (e *c07Engine) predSummary(fn *ssa.Function, pk c07flowKey, want bool, ri int) (c07B, bool) {
+	key := fmt.Sprintf("P|%s|%d|%s|%v|%d", FuncName(e.p, fn), pk.kind, pk.v.Name(), want, ri)
+	if b, ok := e.predMemo[key]; ok {
+		return b, b.Lo > c07NegInf && !(pk.kind == c07Len && b.Lo <= 0)
+	}
+	e.predMemo[key] = c07B{Lo: c07NegInf}
+	e.depth += 10
+	defer func() { e.depth -= 10 }()
+	acc := c07B{Lo: c07PosInf, Exact: true}
+	for _, b := range fn.Blocks {
+		ret, ok := b.Instrs[len(b.Instrs)-1].(*ssa.Return)
+		if !ok || ri >= len(ret.Results) {
+			continue
+		}
+		f, possible := e.flagFact(pk, ret.Results[ri], want, b, 0)
+		if !possible {
+			continue
+		}
+		acc = c07min(acc, f)
+	}
+	if acc.Lo >= c07PosInf {
+		// the helper never returns this truth value: the edge is dead
+		acc = c07B{Lo: c07PosInf / 2, Why: "unreachable"}
+	}
+	e.predMemo[key] = acc
+	return acc, acc.Lo > c07NegInf && !(pk.kind == c07Len && acc.Lo <= 0)
+}
+
+// tupleSummary: the bound of result #vi of fn over the returns whose flag
+// result #fi can be `want` (or nil for an error flag).
+func (e *c07Engine) tupleSummary(fn *ssa.Function, kind c07subjKind, vi, fi int, wantNil, want bool) (c07B, bool) {
+	key := fmt.Sprintf("T|%s|%d|%d|%d|%v|%v", FuncName(e.p, fn), kind, vi, fi, wantNil, want)
+	if b, ok := e.predMemo[key]; ok {
+		return b, b.Lo > c07NegInf && !(kind == c07Len && b.Lo <= 0)
+	}
+	e.predMemo[key] = c07B{Lo: c07NegInf}
+	e.depth += 10
+	defer func() { e.depth -= 10 }()
+	acc := c07B{Lo: c07PosInf, Exact: true}
+	for _, b := range fn.Blocks {
+		ret, ok := b.Instrs[len(b.Instrs)-1].(*ssa.Return)
+		if !ok || vi >= len(ret.Results) || fi >= len(ret.Results) {
+			continue
+		}
+		k := c07flowKey{kind: kind, v: ret.Results[vi]}
+		var f c07B
+		if wantNil {
+			if c07CertainlyNonNil(ret.Results[fi]) {
+				continue
+			}
+			f = e.at(k, b)
+			if kind == c07Len {
+				f = e.lenAt(ret.Results[vi], b)
+			} else {
+				f = e.intAt(ret.Results[vi], b)
+			}
+		} else {
+			var possible bool
+			if _, isC := ret.Results[vi].(*ssa.Const); isC {
+				// constant result: its value, if the flag can be want here
+				if _, possible = e.flagFact(c07flowKey{kind: c07Int, v: ret.Results[fi], free: true}, ret.Results[fi], want, b, 0); !possible {
+					continue
+				}
+				if kind == c07Len {
+					f = e.lenAt(ret.Results[vi], b)
+				} else {
+					f = e.intAt(ret.Results[vi], b)
+				}
+			} else {
+				f, possible = e.flagFact(k, ret.Results[fi], want, b, 0)
+				if !possible {
+					continue
+				}
+			}
+		}
+		f.Exact = false
+		acc = c07min(acc, f)
+	}
+	if acc.Lo >= c07PosInf {
+		acc = c07B{Lo: c07PosInf / 2, Why: "unreachable"}
+	}
+	acc.Why = "results of " + FuncName(e.p, fn)
+	e.predMemo[key] = acc
+	return acc, acc.Lo > c07NegInf && !(kind == c07Len && acc.Lo <= 0)
 }
 
 // c07LoadedFrom: v is a load of a local cell; returns the value stored into
@@ -430,6 +814,233 @@ func c07sameInt(a, b ssa.Value) bool {
 	return false
 }
 
+// symbolicDef: the earliest block from which both operands of the
+// subtraction denote fixed numbers: len() of a value, constants, loads of
+// immutable fields of a value; nil when an operand is not of that kind.
+func (e *c07Engine) symbolicDef(bo *ssa.BinOp, fn *ssa.Function) *ssa.BasicBlock {
+	var res *ssa.BasicBlock
+	for _, op := range []ssa.Value{bo.X, bo.Y} {
+		var root ssa.Value
+		if _, isC := op.(*ssa.Const); isC {
+			continue
+		}
+		if x, ok := c07LenArg(op); ok {
+			root = c07SameLen(x)
+		} else if u, ok := op.(*ssa.UnOp); ok && u.Op == token.MUL {
+			addr := u.X
+			for i := 0; i < 5; i++ {
+				fa, ok := addr.(*ssa.FieldAddr)
+				if !ok {
+					break
+				}
+				if !e.fieldImmutable(fieldIDOfAddr(fa)) {
+					return nil
+				}
+				addr = fa.X
+			}
+			if _, isFA := addr.(*ssa.FieldAddr); isFA || addr == u.X {
+				return nil
+			}
+			root = addr
+		} else {
+			return nil
+		}
+		f2, b := c07DefBlock(root)
+		if f2 != fn || b == nil {
+			return nil
+		}
+		if res == nil || res.Dominates(b) {
+			res = b
+		} else if !b.Dominates(res) {
+			return nil
+		}
+	}
+	return res
+}
+
+// sameInt: a and b denote the same number: the same SSA value, len() of
+// length-equal values, loads of the same write-once local cell, loads of the
+// same immutable field of the same object, or the same arithmetic on such.
+func (e *c07Engine) sameInt(a, b ssa.Value, depth int) bool {
+	if c07sameInt(a, b) {
+		return true
+	}
+	if depth > 4 || a == nil || b == nil {
+		return false
+	}
+	a, b = c07Settle(a), c07Settle(b)
+	if c07sameInt(a, b) {
+		return true
+	}
+	if ca, ok := c07ConstInt(a); ok {
+		cb, ok2 := c07ConstInt(b)
+		return ok2 && ca == cb
+	}
+	switch x := a.(type) {
+	case *ssa.BinOp:
+		y, ok := b.(*ssa.BinOp)
+		if !ok || x.Op != y.Op {
+			return false
+		}
+		if e.sameInt(x.X, y.X, depth+1) && e.sameInt(x.Y, y.Y, depth+1) {
+			return true
+		}
+		if x.Op == token.ADD || x.Op == token.MUL {
+			return e.sameInt(x.X, y.Y, depth+1) && e.sameInt(x.Y, y.X, depth+1)
+		}
+	case *ssa.Convert:
+		if y, ok := b.(*ssa.Convert); ok && types.Identical(x.Type(), y.Type()) {
+			return e.sameInt(x.X, y.X, depth+1)
+		}
+	case *ssa.UnOp:
+		y, ok := b.(*ssa.UnOp)
+		if !ok || x.Op != token.MUL || y.Op != token.MUL {
+			return false
+		}
+		return e.sameFieldLoad(x.X, y.X, 0)
+	case *ssa.Field:
+		if y, ok := b.(*ssa.Field); ok && x.Field == y.Field {
+			return x.X == y.X
+		}
+	}
+	return false
+}
+
+// sameFieldLoad: two field addresses with the same path from the same root
+// object, every field on the path being immutable after construction.
+func (e *c07Engine) sameFieldLoad(a, b ssa.Value, depth int) bool {
+	fa, ok1 := a.(*ssa.FieldAddr)
+	fb, ok2 := b.(*ssa.FieldAddr)
+	if !ok1 || !ok2 || depth > 4 || fa.Field != fb.Field || fieldIDOfAddr(fa) != fieldIDOfAddr(fb) {
+		return false
+	}
+	if !e.fieldImmutable(fieldIDOfAddr(fa)) {
+		return false
+	}
+	if fa.X == fb.X {
+		return true
+	}
+	// nested: x.inner.f  (inner embedded by value: FieldAddr of FieldAddr; by pointer: load)
+	xa, xb := fa.X, fb.X
+	if ua, ok := xa.(*ssa.UnOp); ok && ua.Op == token.MUL {
+		if ub, ok := xb.(*ssa.UnOp); ok && ub.Op == token.MUL {
+			return e.sameFieldLoad(ua.X, ub.X, depth+1)
+		}
+		return false
+	}
+	return e.sameFieldLoad(xa, xb, depth+1)
+}
+
+// fieldImmutable: the (unexported) field is only written while its struct is
+// being built: every store to it goes through a field address rooted at a
+// local allocation of the storing function.
+func (e *c07Engine) fieldImmutable(id FieldID) bool {
+	if v, ok := e.fieldImm[id]; ok {
+		return v
+	}
+	res := id.Field != "" && id.Type != "" && !token.IsExported(id.Field)
+	if res {
+		for _, fn := range e.p.Funcs {
+			allInstrs(fn, func(in ssa.Instruction) {
+				st, ok := in.(*ssa.Store)
+				if !ok || !res {
+					return
+				}
+				fa, ok := st.Addr.(*ssa.FieldAddr)
+				if !ok || fieldIDOfAddr(fa) != id {
+					return
+				}
+				if _, _, ok := c07AddrPath(fa, 0); !ok {
+					res = false
+				}
+			})
+		}
+	}
+	e.fieldImm[id] = res
+	return res
+}
+
+// fieldConsts: the set of integer constants an unexported field of an
+// unexported struct type can hold: every store to the field (module-wide) is
+// a constant or a copy of another such field; 0 is always included (zero
+// value). ok=false when some store is not understood.
+func (e *c07Engine) fieldConsts(id FieldID, depth int) (lo, hi int64, ok bool) {
+	if depth > 3 || id.Field == "" || token.IsExported(id.Field) {
+		return 0, 0, false
+	}
+	tn := id.Type[strings.LastIndex(id.Type, ".")+1:]
+	if tn == "" || token.IsExported(tn) {
+		return 0, 0, false
+	}
+	lo, hi, ok = 0, 0, true
+	n := 0
+	for _, fn := range e.p.Funcs {
+		allInstrs(fn, func(in ssa.Instruction) {
+			st, isSt := in.(*ssa.Store)
+			if !isSt || !ok {
+				return
+			}
+			fa, isFA := st.Addr.(*ssa.FieldAddr)
+			if !isFA || fieldIDOfAddr(fa) != id {
+				return
+			}
+			n++
+			l, h, k := e.intConsts(st.Val, depth+1)
+			if !k {
+				ok = false
+				return
+			}
+			if l < lo {
+				lo = l
+			}
+			if h > hi {
+				hi = h
+			}
+		})
+	}
+	if n == 0 {
+		ok = false
+	}
+	return
+}
+
+// intConsts: finite constant range of an int value (constant, or load of a
+// field with a constant value set, through write-once local cells).
+func (e *c07Engine) intConsts(v ssa.Value, depth int) (lo, hi int64, ok bool) {
+	v = c07Settle(v)
+	if c, isC := c07ConstInt(v); isC {
+		return c, c, true
+	}
+	switch x := v.(type) {
+	case *ssa.UnOp:
+		if fa, isFA := x.X.(*ssa.FieldAddr); isFA && x.Op == token.MUL {
+			return e.fieldConsts(fieldIDOfAddr(fa), depth)
+		}
+	case *ssa.Field:
+		return e.fieldConsts(fieldIDOfField(x), depth)
+	case *ssa.Phi:
+		if depth > 2 {
+			return 0, 0, false
+		}
+		first := true
+		for _, ed := range x.Edges {
+			l, h, k := e.intConsts(ed, depth+1)
+			if !k {
+				return 0, 0, false
+			}
+			if first || l < lo {
+				lo = l
+			}
+			if first || h > hi {
+				hi = h
+			}
+			first = false
+		}
+		return lo, hi, !first
+	}
+	return 0, 0, false
+}
+
 func quoteShort(s string) string {
 	if len(s) > 16 {
 		s = s[:16] + "…"
@@ -460,6 +1071,35 @@ func (e *c07Engine) neqFact(k c07flowKey, from, to *ssa.BasicBlock) (int64, bool
 	return c07ConstInt(y)
 }
 
+// modFact: the edge establishes subject % m == r (m, r constants, 0 <= r < m).
+func (e *c07Engine) modFact(k c07flowKey, from, to *ssa.BasicBlock) (int64, int64, bool) {
+	if len(from.Instrs) == 0 {
+		return 0, 0, false
+	}
+	ifi, ok := from.Instrs[len(from.Instrs)-1].(*ssa.If)
+	if !ok || len(from.Succs) != 2 || from.Succs[0] == from.Succs[1] {
+		return 0, 0, false
+	}
+	cmp, ok := decodeCond(ifi.Cond, from.Succs[0] == to)
+	if !ok || cmp.Op != token.EQL {
+		return 0, 0, false
+	}
+	x, y := cmp.X, cmp.Y
+	if _, isC := c07ConstInt(x); isC {
+		x, y = y, x
+	}
+	bo, ok := x.(*ssa.BinOp)
+	if !ok || bo.Op != token.REM || !e.isSubject(k, bo.X) {
+		return 0, 0, false
+	}
+	m, ok1 := c07ConstInt(bo.Y)
+	r, ok2 := c07ConstInt(y)
+	if !ok1 || !ok2 || m <= 0 || r < 0 || r >= m {
+		return 0, 0, false
+	}
+	return m, r, true
+}
+
 // flow computes, for every block, the lower bound of the subject at block
 // entry, given its bound `base` at its definition.
 func (e *c07Engine) flow(k c07flowKey, fn *ssa.Function, def *ssa.BasicBlock, base c07B) map[*ssa.BasicBlock]c07B {
@@ -482,6 +1122,7 @@ func (e *c07Engine) flow(k c07flowKey, fn *ssa.Function, def *ssa.BasicBlock, ba
 	facts := map[edge]c07B{}
 	neq := map[edge]int64{}
 	hasNeq := map[edge]bool{}
+	mods := map[edge][2]int64{}
 	for _, b := range fn.Blocks {
 		for _, s := range b.Succs {
 			if f, ok := e.edgeFact(k, b, s); ok {
@@ -490,6 +1131,9 @@ func (e *c07Engine) flow(k c07flowKey, fn *ssa.Function, def *ssa.BasicBlock, ba
 			if c, ok := e.neqFact(k, b, s); ok {
 				neq[edge{b, s}] = c
 				hasNeq[edge{b, s}] = true
+			}
+			if m, r, ok := e.modFact(k, b, s); ok {
+				mods[edge{b, s}] = [2]int64{m, r}
 			}
 		}
 	}
@@ -521,6 +1165,16 @@ func (e *c07Engine) flow(k c07flowKey, fn *ssa.Function, def *ssa.BasicBlock, ba
 				if hasNeq[edge{pr, b}] && neq[edge{pr, b}] == v.Lo {
 					v.Lo++
 					v.Why = "guard !="
+				}
+				// subject % m == r on this edge: the bound moves up to the next
+				// number with that remainder (x%m==0 alone says nothing about
+				// x>=0, but with x>=1 it says x>=m)
+				if mf, ok := mods[edge{pr, b}]; ok && v.Lo >= 0 && v.Lo < c07PosInf/4 {
+					n := v.Lo + ((mf[1]-v.Lo%mf[0])%mf[0]+mf[0])%mf[0]
+					if n > v.Lo {
+						v.Lo = n
+						v.Why = "guard %"
+					}
 				}
 				acc = c07min(acc, v)
 			}
@@ -571,7 +1225,7 @@ func (e *c07Engine) lenAt(v ssa.Value, at *ssa.BasicBlock) c07B {
 	if c, ok := v.(*ssa.Const); ok && c.IsNil() {
 		return c07B{Lo: 0, Exact: true, Why: "nil"}
 	}
-	return e.at(c07flowKey{c07Len, v}, at)
+	return e.at(c07flowKey{kind: c07Len, v: v}, at)
 }
 
 // intAt: lower bound on the integer v at entry of block at.
@@ -579,7 +1233,7 @@ func (e *c07Engine) intAt(v ssa.Value, at *ssa.BasicBlock) c07B {
 	if c, ok := c07ConstInt(v); ok {
 		return c07B{Lo: c, Exact: true, Why: "constant"}
 	}
-	return e.at(c07flowKey{c07Int, v}, at)
+	return e.at(c07flowKey{kind: c07Int, v: v}, at)
 }
 
 func (e *c07Engine) at(k c07flowKey, at *ssa.BasicBlock) c07B {
@@ -598,7 +1252,19 @@ func (e *c07Engine) at(k c07flowKey, at *ssa.BasicBlock) c07B {
 	e.busy[ak] = true
 	e.depth++
 	defer func() { delete(e.busy, ak); e.depth-- }()
-	base := e.intrinsic(k)
+	base := unknown
+	if !k.free {
+		base = e.intrinsic(k)
+	} else {
+		base.Exact = true // "anything": what the predicate itself establishes is tight
+	}
+	// a difference of values that exist long before it is computed
+	// (len(x) - aead.tagSize): guards placed before the subtraction count too
+	if bo, ok := k.v.(*ssa.BinOp); ok && k.kind == c07Int && bo.Op == token.SUB {
+		if d2 := e.symbolicDef(bo, fn); d2 != nil && d2.Dominates(def) {
+			def = d2
+		}
+	}
 	if at == nil || at.Parent() != fn {
 		return base
 	}
@@ -839,7 +1505,7 @@ func c07CellValue(load *ssa.UnOp) (ssa.Value, *ssa.Store) {
 // lenAtEnd: bound on len(v) at the end of block pred when control goes to succ.
 func (e *c07Engine) lenAtEnd(v ssa.Value, pred, succ *ssa.BasicBlock) c07B {
 	b := e.lenAt(v, pred)
-	k := c07flowKey{c07Len, v}
+	k := c07flowKey{kind: c07Len, v: v}
 	if f, ok := e.edgeFact(k, pred, succ); ok && f.Lo > b.Lo {
 		return c07B{Lo: f.Lo, Exact: f.Exact && b.Exact, Why: f.Why}
 	}
@@ -1121,9 +1787,12 @@ func (e *c07Engine) paramBound(kind c07subjKind, par *ssa.Parameter) c07B {
 			b = e.intAt(arg, blk)
 		}
 		if b.Exact {
-			if og := e.opaqueGuards(cs.Caller, blk, c07SameLen(arg), []c07flowKey{{kind, arg}, {kind, c07SameLen(arg)}}); len(og) > 0 {
+			if og := e.opaqueGuards(cs.Caller, blk, c07SameLen(arg), []c07flowKey{{kind: kind, v: arg}, {kind: kind, v: c07SameLen(arg)}}); len(og) > 0 {
 				b.Exact = false
 			}
+		}
+		if b.Exact && kind == c07Int && !e.ingredientsClean(cs.Caller, blk, arg, 0) {
+			b.Exact = false
 		}
 		// table dispatch: the argument that selected the target is correlated
 		// with the target; the bound over all keys is sound as a lower bound but
@@ -1247,6 +1916,15 @@ func (e *c07Engine) intrinsicInt0(v ssa.Value) c07B {
 				}
 				return c07B{Lo: a.Lo - c, Exact: a.Exact, Why: a.Why}
 			}
+			// a - v where v ranges over a known finite set of constants (a size
+			// kept in an immutable field set by the constructors)
+			if _, hi, ok := e.intConsts(x.Y, 0); ok {
+				a := e.intAt(x.X, x.Block())
+				if a.Lo <= c07NegInf {
+					return a
+				}
+				return c07B{Lo: a.Lo - hi, Exact: a.Exact, Why: a.Why + fmt.Sprintf(", minus a size that can be %d", hi)}
+			}
 			return unknown
 		case token.MUL:
 			a, b := e.intAt(x.X, x.Block()), e.intAt(x.Y, x.Block())
@@ -1282,7 +1960,7 @@ func (e *c07Engine) intrinsicInt0(v ssa.Value) c07B {
 		for i, ed := range x.Edges {
 			pred := x.Block().Preds[i]
 			b := e.intAt(ed, pred)
-			k := c07flowKey{c07Int, ed}
+			k := c07flowKey{kind: c07Int, v: ed}
 			if f, ok := e.edgeFact(k, pred, x.Block()); ok && f.Lo > b.Lo {
 				b = c07B{Lo: f.Lo, Exact: f.Exact && b.Exact, Why: f.Why}
 			}
@@ -1298,6 +1976,13 @@ func (e *c07Engine) intrinsicInt0(v ssa.Value) c07B {
 			if val, st := c07CellValue(x); val != nil {
 				return e.intAt(val, st.Block())
 			}
+			if lo, _, ok := e.intConsts(x, 0); ok {
+				return c07B{Lo: lo, Why: "field holding one of a fixed set of constants"}
+			}
+		}
+	case *ssa.Field:
+		if lo, _, ok := e.intConsts(x, 0); ok {
+			return c07B{Lo: lo, Why: "field holding one of a fixed set of constants"}
 		}
 	case *ssa.Convert:
 		if c07isInteger(x.X.Type()) && c07isInteger(x.Type()) {
@@ -1409,6 +2094,12 @@ func (e *c07Engine) opaqueGuards(fn *ssa.Function, at *ssa.BasicBlock, root ssa.
 			}
 			understood = all
 		}
+		// a module predicate on the subject whose body the engine reads
+		// completely (validLen(len(x)), longEnough(x)): whatever it establishes
+		// is in the summary fact; if it establishes nothing, nothing is hidden
+		if e.predTransparent(ifi.Cond, subjects) {
+			understood = true
+		}
 		// a test of len(x) % c says nothing about a lower bound
 		if cmp, ok := decodeCond(ifi.Cond, true); ok {
 			for _, side := range []ssa.Value{cmp.X, cmp.Y} {
@@ -1416,6 +2107,13 @@ func (e *c07Engine) opaqueGuards(fn *ssa.Function, at *ssa.BasicBlock, root ssa.
 					for _, k := range subjects {
 						if e.isSubject(k, bo.X) {
 							understood = true
+						}
+						// (subject - v) % m, (subject + v) % m: only for rules that
+						// account for the remainder themselves (remLinear)
+						if lin, ok := bo.X.(*ssa.BinOp); ok && e.remLinear && (lin.Op == token.SUB || lin.Op == token.ADD) {
+							if e.isSubject(k, lin.X) || e.isSubject(k, lin.Y) {
+								understood = true
+							}
 						}
 					}
 				}
@@ -1448,6 +2146,36 @@ func (e *c07Engine) opaqueGuards(fn *ssa.Function, at *ssa.BasicBlock, root ssa.
 		}
 	}
 	return out
+}
+
+// ingredientsClean: none of the ingredients of the integer v (operands of its
+// arithmetic, lengths it is computed from, parameters) is constrained by a
+// condition on the way to `at` that the engine cannot interpret.
+func (e *c07Engine) ingredientsClean(fn *ssa.Function, at *ssa.BasicBlock, v ssa.Value, depth int) bool {
+	if depth > 4 {
+		return false
+	}
+	switch x := v.(type) {
+	case *ssa.BinOp:
+		return e.ingredientsClean(fn, at, x.X, depth+1) && e.ingredientsClean(fn, at, x.Y, depth+1)
+	case *ssa.Const:
+		return true
+	case *ssa.Call:
+		if a, ok := c07LenArg(x); ok {
+			root := c07SameLen(a)
+			return len(e.opaqueGuards(fn, at, root, []c07flowKey{{kind: c07Len, v: a}, {kind: c07Len, v: root}, {kind: c07Int, v: x}})) == 0
+		}
+		return false
+	case *ssa.Parameter:
+		return len(e.opaqueGuards(fn, at, x, []c07flowKey{{kind: c07Int, v: x}})) == 0
+	case *ssa.Convert:
+		return e.ingredientsClean(fn, at, x.X, depth+1)
+	case *ssa.UnOp, *ssa.Field:
+		if _, _, ok := e.intConsts(v, 0); ok {
+			return true
+		}
+	}
+	return false
 }
 
 func c07InCycle(b *ssa.BasicBlock) bool {
